@@ -82,7 +82,7 @@ class C20(Prop):
         "numpy's writeable flag turns a write through any view of a read-only leaf into a ValueError",
         "sha1 of the array bytes detects any change of contents",
     )
-    cases = {"quick": 2000, "thorough": 80000}
+    cases = {"quick": 4000, "thorough": 80000}
 
     def strategy(self, tier):
         return st.integers(0, 2**40).map(robust_gen(gen_case))
